@@ -299,21 +299,38 @@ pub fn compare_restore(
         let mut got = t.deps.clone();
         got.sort();
         if got != want {
-            // a dependency on a failed/canceled task of a task that is itself not terminal can
-            // only come from the known late-dependent defect (C03); keep it apart
-            let dead_dep = rt.deps.iter().any(|d| {
+            // A pending task with a dependency on a failed/canceled task. If the task was
+            // submitted after the dependency had died this is the known late-dependent defect
+            // (C03). If it already existed when the dependency died, the journal records the
+            // death of the dependency without the abort of its dependent (C03 across a restart):
+            // the dependent must not become runnable.
+            let dead = |x: &crate::restore_ref::RefTask| {
+                matches!(
+                    x.state,
+                    RefTaskState::Failed | RefTaskState::Canceled | RefTaskState::Aborted
+                )
+            };
+            let dead_dep = rt.deps.iter().any(|d| rj.tasks.get(d).is_some_and(dead));
+            let survived = rt.deps.iter().any(|d| {
                 rj.tasks.get(d).is_some_and(|x| {
-                    matches!(
-                        x.state,
-                        RefTaskState::Failed | RefTaskState::Canceled | RefTaskState::Aborted
-                    )
+                    dead(x) && x.outcome_at.is_some_and(|o| o > rt.submitted_at)
                 })
             });
             fnd(
                 out,
-                "C10",
-                "restored-dependencies",
-                if dead_dep { "dependency-on-dead-task" } else { "" },
+                if survived { "C03" } else { "C10" },
+                if survived {
+                    "dependent-of-dead-task-runnable-after-restart"
+                } else {
+                    "restored-dependencies"
+                },
+                if survived {
+                    ""
+                } else if dead_dep {
+                    "dependency-on-dead-task"
+                } else {
+                    ""
+                },
                 format!(
                     "task {k:?}: unfinished dependencies in the journal {want:?}, handed to the scheduler with {got:?}"
                 ),
@@ -523,6 +540,7 @@ pub fn model_from_ref(reference: &RefState, step: u64) -> Model {
     }
     m.job_ids_seen = reference.job_ids_mentioned.clone();
     m.worker_ids_seen = reference.worker_ids_mentioned.clone();
+    m.queue_ids_seen = reference.queue_ids_mentioned.clone();
     if let Some(uid) = &reference.server_uid {
         m.server_uids.push(uid.clone());
     }
